@@ -29,6 +29,7 @@ type Batch struct {
 	Thor    bool     // thorough tier only
 	NoNF    bool     // run with -no-wire-nf (solver alone decides)
 	Timeout int      // per-query timeout ms (0 = default)
+	Solver  string   // solver for this batch ("" = the -solver flag)
 }
 
 // PropertyDef lists the batches of a property.
@@ -156,8 +157,12 @@ func main() {
 			sem <- struct{}{}
 			defer func() { <-sem }()
 			out := filepath.Join(work, fmt.Sprintf("b%d.json", i))
+			slv := *solver
+			if b.Solver != "" {
+				slv = b.Solver
+			}
 			args := []string{"-pkg", "./" + b.Pkg, "-harness", filepath.Join(engine, b.Harness), "-func", strings.Join(append(append([]string{}, b.Funcs...), b.Control...), ","),
-				"-solver", *solver, "-out", out, "-replay-dir", filepath.Join(replayDir, b.Name)}
+				"-solver", slv, "-out", out, "-replay-dir", filepath.Join(replayDir, b.Name)}
 			if b.NoNF {
 				args = append(args, "-no-wire-nf")
 			}
